@@ -390,7 +390,14 @@ func c04Trace(c *mon.Ctx, o *mon.Obj, facts *scopeFacts, cfgText, how string) {
 
 var (
 	latticeEKUs     = []string{gen.OIDEkuAny, gen.OIDEkuServer, gen.OIDEkuClient, gen.OIDEkuEmail, gen.OIDEkuCode, gen.OIDEkuOCSP, "1.3.6.1.4.1.99999.1"}
-	latticePolicies = [][]string{nil, {gen.OIDPolDV}, {gen.OIDPolOV}, {gen.OIDPolEV}, {gen.OIDPolIV}, {"2.23.140.1.5.1.1"}, {"2.23.140.1.5.3.3"}, {"2.23.140.1.5.4.2"}, {gen.OIDPolCS}, {gen.OIDPolEVCS}, {gen.OIDPolAny}, {"1.3.6.1.4.1.99999.2"}, {"2.23.140.1.5.1"}, {"2.23.140.1.5.5.1"}, {gen.OIDPolOV, gen.OIDPolCS}, {"2.23.140.1.2"}, {"2.23.140.1.4.2"}}
+	latticePolicies = [][]string{nil, {gen.OIDPolDV}, {gen.OIDPolOV}, {gen.OIDPolEV}, {gen.OIDPolIV}, {"2.23.140.1.5.1.1"}, {"2.23.140.1.5.3.3"}, {"2.23.140.1.5.4.2"}, {gen.OIDPolCS}, {gen.OIDPolEVCS}, {gen.OIDPolAny}, {"1.3.6.1.4.1.99999.2"}, {"2.23.140.1.5.1"}, {"2.23.140.1.5.5.1"}, {gen.OIDPolOV, gen.OIDPolCS}, {"2.23.140.1.2"}, {"2.23.140.1.4.2"},
+		// ORDERED lists: a near-miss sibling / parent / child of a scope policy in front of it, behind it, and behind an
+		// unrelated policy (scope is "some policy of the list", wherever it sits)
+		{"2.23.140.1.4.2", gen.OIDPolCS}, {gen.OIDPolCS, "2.23.140.1.4.2"}, {"1.3.6.1.4.1.99999.2", "2.23.140.1.4.2", gen.OIDPolCS}, {"2.23.140.1.4", gen.OIDPolCS}, {"2.23.140.1.4.1.1", gen.OIDPolCS},
+		{"2.23.140.1.3.1", gen.OIDPolEVCS}, {"2.23.140.1.4.2", gen.OIDPolEVCS}, {gen.OIDPolEVCS, gen.OIDPolCS},
+		{"2.23.140.1.2.4", gen.OIDPolDV}, {"2.23.140.1.2", gen.OIDPolOV}, {gen.OIDPolIV, "2.23.140.1.2.9"}, {"2.23.140.1.1.1", gen.OIDPolEV}, {"1.3.6.1.4.1.99999.2", "2.23.140.1.2.1.1", gen.OIDPolDV},
+		{"2.23.140.1.5.1.4", "2.23.140.1.5.1.1"}, {"2.23.140.1.5.5.1", "2.23.140.1.5.2.2"}, {"2.23.140.1.5.1", "2.23.140.1.5.4.3"}, {"2.23.140.1.5.0.0", "1.3.6.1.4.1.99999.2", "2.23.140.1.5.3.1"}, {"2.23.140.1.5.1.1.1", "2.23.140.1.5.1.2"},
+		{gen.OIDPolAny, gen.OIDPolCS}, {gen.OIDPolAny, gen.OIDPolDV}, {gen.OIDPolAny, "2.23.140.1.5.2.1"}}
 	latticeSANs     = []string{"none", "email", "email-empty", "smtputf8", "smtputf8-empty", "dns", "email+dns", "upn-othername"}
 )
 
